@@ -348,6 +348,12 @@ impl<H: Host> ZXController<H> {
         }
     }
 
+    /// Re-enables 128K paging which was locked by bit 5 of port 0x7FFD (as hardware reset
+    /// does). Required before whole machine state is replaced (e.g. on snapshot loading)
+    pub fn unlock_paging(&mut self) {
+        self.paging_enabled = self.machine == ZXMachine::Sinclair128K;
+    }
+
     pub fn read_7ffd(&self) -> u8 {
         self.current_port_7ffd
     }
